@@ -628,6 +628,7 @@ func c03(c *Ctx) {
 	c04DatagramBuffers(c)
 	pooledObjectsReset(c, "pooled-object-reset", "services", "listener", "server")
 	c03LimiterState(c)
+	c03MemoKeyExact(c)
 	c03SharedLockNotHeldAcrossClientIO(c)
 	// the goroutine that serves a connection works on that connection: no goroutine started in a loop of the listeners or
 	// the server reads a variable the loop assigns again (shared with C08)
